@@ -187,5 +187,15 @@ CLAIMS = {
     note="Partial. Trusted: sympy, z3, shims, interp1d/lfilter contracts; Kaiser window and sinc taps numeric. Sizes fixed, values symbolic. Floats are reals. "
          "numba variants of the nearest-sample kernels are not the ones running here.",
     technique="real functions executed on symbolic inputs (sympy exp/log identities; linear-coefficient extraction); dynamic symbolic execution with z3 over all paths for the nearest-sample kernels; bounded float checks"),
+ "C20": dict(
+    text="Definition conformance only. The real ksingle, kdouble, _getr and order_stats run with SciPy's distribution functions as uninterpreted symbols: "
+         "ksingle == nct.ppf(c, n-1, sqrt(n) norm.ppf(p))/sqrt(n); kdouble == sqrt((n-1)/chi2.ppf(1-c, n-1)) r; one iteration of _getr is the exact Newton step "
+         "r - g(r)/g'(r) for the documented coverage residual g(r)=Phi(1/sqrt n + r)-Phi(1/sqrt n - r)-p (derivative checked with Phi = erf form, at "
+         "witnesses in the low- and high-coverage regimes); order_stats('c') == binom.sf(r-1, n, 1-p); order_stats('n') hands brentq the function "
+         "(1-c)-(1-betainc(r, n-r+1, 1-p)) with a tolerance <= 1e-9 and rounds up. The probability statements themselves - coverage equation, monotonicity in "
+         "p and c, convergence to the normal quantile from above, minimality of the returned sample size incl. narrowly met confidences - are theorems about "
+         "SciPy's special functions and root finder: bounded brute-force checks, labelled bounded.",
+    note="Thin by nature: a contract on this code can pin the wiring, not the statistics. Trusted: sympy, shims. Not covered deductively: order_stats('r'), ('p').",
+    technique="real functions executed with uninterpreted distribution functions (term equality), symbolic Newton-step check (sympy); bounded brute-force checks for the probabilistic clauses"),
 }
 NOT_APPLICABLE = {}
